@@ -274,8 +274,42 @@ class Interp:
         if self.on_event:
             self.on_event(ev)
 
+    _CACHE_DECOS = {"lru_cache", "cache", "functools.lru_cache", "functools.cache"}
+
+    def _cache_key(self, v, node=None):
+        """Key under which functools.lru_cache / cache files an argument: Python's hash/== of the value (so 1, 1.0 and True
+        collide), identity for instances of classes that define neither __eq__ nor are value-comparing dataclasses;
+        unhashable arguments raise TypeError like the real decorator."""
+        if isinstance(v, (list, dict, set, bytearray)):
+            raise Raised(ExcVal("TypeError", (f"unhashable type: '{type(v).__name__}'",)), node)
+        if isinstance(v, tuple):
+            return ("t",) + tuple(self._cache_key(x, node) for x in v)
+        if isinstance(v, Obj):
+            if v.cls and v.cls in self.prog.classes:
+                ci = self.prog.classes[v.cls]
+                if self.prog.resolve_method(v.cls, "__hash__") is None and \
+                        (self.prog.resolve_method(v.cls, "__eq__") is not None or "dataclass" in ci.decorators):
+                    raise Raised(ExcVal("TypeError", (f"unhashable type: '{v.cls}'",)), node)
+            return ("o", id(v))
+        if isinstance(v, (ClassRef,)):
+            return ("c", v.name)
+        if isinstance(v, (Closure, BoundMethod, FuncInfo, ExcVal)):
+            return ("f", id(v))
+        return v
+
     def call(self, fi: FuncInfo, args: list, kwargs: Optional[dict] = None, *, closure_env: Optional[Env] = None):
         """Interpret function ``fi``.  Generators return the list of yielded values (yields are also events)."""
+        if fi.decorators and self._CACHE_DECOS & set(fi.decorators):
+            store = self.__dict__.setdefault("_lru_store", {})
+            import functools as _ft
+            key = (fi.key, _ft._make_key(tuple(self._cache_key(a) for a in args),
+                                         {k: self._cache_key(v) for k, v in (kwargs or {}).items()}, False))
+            if key in store:
+                self.event("cache-hit", fi.key)
+                return store[key]
+            r = self._call_def(fi.node, fi.relpath, fi.cls.name if fi.cls else None, args, kwargs or {}, closure_env, fi)
+            store[key] = r
+            return r
         return self._call_def(fi.node, fi.relpath, fi.cls.name if fi.cls else None, args, kwargs or {},
                               closure_env, fi)
 
